@@ -32,6 +32,9 @@ ASSUMPTIONS = ['cells are right-handed with volume >= 10% of a*b*c (condition nu
                'index strings follow the documented grammar: no leading blank, space-delimited integers',
                'oracle shares numpy/LAPACK with the code under test']
 
+# thorough: 16 shards x 3 seeds; ~35 CPU-min in total, so a generous per-worker watchdog for a loaded machine
+CONFIG = {'thorough': {'timeout': 7200}}
+
 MILLER_PY = 'atomman/tools/miller.py'
 CELL_KINDS = ['cubic', 'tetragonal', 'orthorhombic', 'hexagonal', 'rhombohedral', 'monoclinic', 'triclinic', 'tilted',
               'rotated', 'hexagonal-rotated', 'triclinic', 'tilted']
@@ -178,9 +181,12 @@ def group_cells(ctx, am, miller, TRI, m):
     pats = [M.zero_pattern(t) for t in TRI]
     zone = M.zone_table(TRI, TRI)
     inzone = zone == 0
+    zonef = zone.astype(float)
+    zmax = float(np.abs(zone).max())
+    n_in, n_off = int(inzone.sum()), int((~inzone).sum())
     Q = quads_from(TRI)
     ntri = len(TRI)
-    n_cells = ctx.pick(96, 384)
+    n_cells = ctx.pick(96, 288)
     for i in ctx.cases('cells', n_cells):
         rng = ctx.rng
         kind = CELL_KINDS[i % 12]
@@ -199,6 +205,7 @@ def group_cells(ctx, am, miller, TRI, m):
         TRUTH[id(box)] = v
         rec.count('cellkind:' + kind)
         n_exp, d_exp = M.plane_normal(TRI, v)
+        c_exp = M.cart_uvw(TRI, v)
         normals_N = None
         # --- plane normals, all three leading shapes
         for s, shape in enumerate(GI.SHAPES):
@@ -223,23 +230,30 @@ def group_cells(ctx, am, miller, TRI, m):
             rec.count('class:zero-pattern:' + p, pats.count(p))
         # --- zone law, both directions, over planes x directions of the bound
         if normals_N is not None:
-            dots = np.abs(normals_N @ M.cart_uvw(TRI, v).T)
             tolz = 1e-9 * L * 3 * m
-            rec.check((dots[inzone] <= tolz).all(), 'the normal is perpendicular to every lattice vector with hu+kv+lw = 0',
-                      'zone:in-zone-perpendicular', worst=float(dots[inzone].max()), tol=tolz, vects=v)
+            signed = normals_N @ c_exp.T                          # n_j . r_k for every plane x direction of the bound
+            work = d_exp[:, None] * zonef                         # d_hkl (hu+kv+lw), oracle spacing
+            np.subtract(signed, work, out=work)
+            np.abs(work, out=work)
+            worst = float(work.max())
+            rec.check(worst <= tolz * (1 + zmax), 'n.[uvw] = d_hkl (hu+kv+lw)', 'zone:spacing', worst=worst, vects=v)
+            dots = np.abs(signed, out=signed)
+            din = dots[inzone]
+            rec.check((din <= tolz).all(), 'the normal is perpendicular to every lattice vector with hu+kv+lw = 0',
+                      'zone:in-zone-perpendicular', worst=float(din.max()), tol=tolz, vects=v)
             # |n.r| = d_hkl |hu+kv+lw| >= d_hkl off the zone: demand at least half the (oracle) spacing
-            floor_ = np.broadcast_to(0.5 * d_exp[:, None], dots.shape)
             if d_exp.min() < 1e3 * tolz:
                 rec.count('zone:exempt-spacing-near-tolerance')
             else:
-                rec.check((dots[~inzone] >= floor_[~inzone]).all(), 'the normal is perpendicular to no lattice vector with hu+kv+lw != 0',
-                          'zone:off-zone-not-perpendicular', least=float(dots[~inzone].min()), vects=v)
-            rec.close(1e-9 * L * 3 * m * (1 + np.abs(zone).max()), normals_N @ M.cart_uvw(TRI, v).T, d_exp[:, None] * zone,
-                      'n.[uvw] = d_hkl (hu+kv+lw)', 'zone:spacing', vects=v)
-            rec.count('zone:pairs-in-zone', int(inzone.sum()))
-            rec.count('zone:pairs-off-zone', int((~inzone).sum()))
+                np.divide(dots, d_exp[:, None], out=dots)
+                dots[inzone] = 1.0
+                least = float(dots.min())
+                rec.check(least >= 0.5, 'the normal is perpendicular to no lattice vector with hu+kv+lw != 0',
+                          'zone:off-zone-not-perpendicular', least_over_spacing=least, vects=v)
+            rec.count('zone:pairs-in-zone', n_in)
+            rec.count('zone:pairs-off-zone', n_off)
+            del signed, work, dots
         # --- directions, all three leading shapes
-        c_exp = M.cart_uvw(TRI, v)
         for s, shape in enumerate(GI.SHAPES):
             typ = GI.TYPES[(i + s + 1) % 3]
             meth = (i + s) % 2 == 1
